@@ -52,6 +52,9 @@ func buildBinaries(dir string) error {
 	for _, b := range [][2]string{{"proxy", "./server"}, {"agent", "./agent"}} {
 		cmd := exec.Command("go", "build", "-o", filepath.Join(dir, b[0]), b[1])
 		cmd.Dir = "/repo"
+		if r := os.Getenv("VERIF_REPO"); r != "" {
+			cmd.Dir = r
+		}
 		cmd.Env = append(os.Environ(), "GOFLAGS=-mod=mod", "GOPROXY=off", "GOSUMDB=off", "GOTOOLCHAIN=local")
 		if out, err := cmd.CombinedOutput(); err != nil {
 			return fmt.Errorf("go build %s: %v\n%s", b[1], err, out)
